@@ -1184,6 +1184,10 @@ class _SPLinalg:
 
         def solve(rhs):
             n = M.shape[1]
+            rd0 = _obj(rhs)
+            if all((not isinstance(r, Sc) and r == 0) or (isinstance(r, Sc) and is_zero(r.re) and is_zero(r.im)) for r in rd0):
+                # zero right-hand side: the triangular solves return the zero vector
+                return SA(_np.full(n, 0.0, dtype=object))
             k = len(CTX.lu_log)
             xs = [z3.Real(f"lu{k}_{i}") for i in range(n)]
             x = SA(_np.array([Sc(v) for v in xs], dtype=object))
